@@ -865,6 +865,75 @@ func runCase(cs uint64) line {
 	return execute(cs, grace, evs, g.tags)
 }
 
+// ---------- which variant of the code is this tree? ----------
+// The model follows the tree: two scripted probes decide whether fixes/C23-block-affinity-moved.patch and
+// fixes/C23-gc-handle-all-or-none.patch are present (they change observable behaviour the model has to mirror).
+var fixAff, fixGC bool
+
+func probeAff() bool {
+	run := newRunner(nil)
+	run.apply(event{Kind: "block", N: 1, Block: &blockT{Aff: 1}})
+	run.apply(event{Kind: "block", N: 1, Block: &blockT{Aff: 2}})
+	_, stale := run.ctl.Dump().BBN[nodeName(1)]
+	return !stale
+}
+
+// One handle with two addresses, both confirmed leaks by the cache; the API server justifies the first only.
+// Unfixed code releases the second alone when the map range visits it first.
+func probeGCOnce() bool {
+	g := 900
+	run := newRunner(&g)
+	at := attrsT{Node: 1, Pod: 1}
+	run.apply(event{Kind: "cnodeapi", N: 1, Present: true})
+	run.apply(event{Kind: "cnodesync", N: 1, Present: true})
+	run.apply(event{Kind: "block", N: 1, Block: &blockT{Aff: 1, Allocs: []ballocT{{Ord: 0, Handle: 1, At: at, Seq: 1}, {Ord: 1, Handle: 1, At: at, Seq: 2}}}})
+	run.apply(event{Kind: "pod", API: true, N: 1, Pod: &podT{Node: 1, IPs: [][2]int{{1, 0}}}})
+	o := run.sync()
+	return len(o.Rel) > 0
+}
+
+// The batch limit of garbageCollectKnownLeaks is a local constant (10000), so the cut is exercised at full size:
+// 10001 confirmed leaks, two (once three) addresses per handle, in one large block.  Reports whether the single
+// ReleaseIPs call contains a handle only partially.
+func batchCut() map[string]any {
+	g := 900
+	run := newRunner(&g)
+	_, cidr, _ := cnet.ParseCIDR("10.200.0.0/18")
+	const total = 10001
+	blk := &model.AllocationBlock{CIDR: *cidr, Allocations: make([]*int, 16384), SequenceNumberForAllocation: map[string]uint64{}}
+	aff := "host:" + nodeName(1)
+	blk.Affinity = &aff
+	perHandle := map[string]int{}
+	for o := 0; o < total; o++ {
+		idx := o
+		h := fmt.Sprintf("big%d", (o/2)%(total/2))
+		perHandle[h]++
+		blk.Attributes = append(blk.Attributes, model.AllocationAttribute{HandleID: &h, ActiveOwnerAttrs: map[string]string{
+			ipam.AttributeNode: nodeName(1), ipam.AttributePod: fmt.Sprintf("p%d", o/2), ipam.AttributeNamespace: "ns"}})
+		blk.Allocations[o] = &idx
+		blk.SequenceNumberForAllocation[fmt.Sprintf("%d", o)] = 1
+	}
+	run.ctl.HandleUpdate(model.KVPair{Key: model.BlockKey{CIDR: model.PrefixFromIPNet(*cidr)}, Value: blk})
+	o := run.sync()
+	res := map[string]any{"confirmed_leaks": total, "calls": len(o.Rel)}
+	split := 0
+	for _, call := range o.Rel {
+		res["batch"] = len(call)
+		got := map[string]int{}
+		for _, x := range call {
+			got[x.Handle]++
+		}
+		for h, k := range got {
+			if k != perHandle[h] {
+				split++
+				res["example"] = fmt.Sprintf("handle %s: %d of its %d addresses in the ReleaseIPs call", h, k, perHandle[h])
+			}
+		}
+	}
+	res["split_handles"] = split
+	return res
+}
+
 func execute(cs uint64, grace *int, evs []event, tags map[string]bool) line {
 	run := newRunner(grace)
 	var steps, keys []string
@@ -926,7 +995,7 @@ func execute(cs uint64, grace *int, evs []event, tags map[string]bool) line {
 		tl = append(tl, t)
 	}
 	sort.Strings(tl)
-	return line{Coq: fmt.Sprintf("mkK %s [%s]", gs, strings.Join(steps, ";\n ")), NT: released || rbaSeen || candidate,
+	return line{Coq: fmt.Sprintf("mkK %s %v %v [%s]", gs, fixAff, fixGC, strings.Join(steps, ";\n ")), NT: released || rbaSeen || candidate,
 		Key: gs + "|" + strings.Join(keys, ";"), Sample: map[string]any{"grace": gs, "steps": sample, "replay_args": fmt.Sprintf("-one %d", cs)}, Tags: tl}
 }
 
@@ -943,6 +1012,18 @@ func main() {
 	testing.Main(func(pat, str string) (bool, error) { return true, nil },
 		[]testing.InternalTest{{Name: "TestVerifC23", F: func(t *testing.T) {
 			r := &rng{s: *seed}
+			synctest.Test(t, func(t *testing.T) {
+				fixAff = probeAff()
+				fixGC = true
+				for i := 0; i < 32 && fixGC; i++ {
+					if probeGCOnce() {
+						fixGC = false
+					}
+				}
+			})
+			if err := enc.Encode(map[string]any{"stats": map[string]any{"tree_has_affinity_fix": fixAff, "tree_has_gc_fix": fixGC}}); err != nil {
+				panic(err)
+			}
 			emit := func(cs uint64) {
 				var l line
 				synctest.Test(t, func(t *testing.T) { l = runCase(cs) })
@@ -953,6 +1034,11 @@ func main() {
 			if *one != 0 {
 				emit(*one)
 				return
+			}
+			var bc map[string]any
+			synctest.Test(t, func(t *testing.T) { bc = batchCut() })
+			if err := enc.Encode(map[string]any{"batchcut": bc}); err != nil {
+				panic(err)
 			}
 			for i := 0; i < *n; i++ {
 				cs := r.next()
